@@ -24,7 +24,7 @@ PROPS = {
     "C16": {"profiles": ["hostile", "enum-prim", "tree", "faults", "parents", "unknowns", "member-instrs"], "n_quick": 9000},
     "C17": {"profiles": ["struct-flat", "enum", "tree", "trait-params", "generics", "shape-change"], "n_quick": 5400},
     "C18": {"profiles": ["hostile", "struct-flat", "enum", "tree", "unknowns"], "n_quick": 5400, "backends": ["s1", "s2"]},
-    "C19": {"profiles": ["faults", "hostile", "multi-counterpart", "trait-repeat"], "n_quick": 4500},
+    "C19": {"profiles": ["faults", "hostile", "multi-counterpart", "trait-repeat", "tree"], "n_quick": 4500},
     "C20": {"profiles": ["expr", "struct-flat", "enum", "tree", "parents"], "n_quick": 4500},
 }
 
@@ -1106,7 +1106,7 @@ def oracle_c14_members(cases, seed, thorough):
     return fails, n
 
 
-RT_FAMILY = {"C01": "flat", "C07": "flat7", "C08": "flat", "C02": "enum", "C03": "tree", "C09": "prim", "C17": "hints", "C10": "subst"}
+RT_FAMILY = {"C01": "flat", "C07": "flat7", "C08": "flat", "C02": "enum", "C03": "tree", "C09": "prim", "C17": "wf", "C10": "subst"}
 
 
 def oracle_rt(prop, seed, thorough):
